@@ -51,9 +51,14 @@ def gen_message(rng, echo, faulty):
                 texts.append(b':FAIL:CUST'); errs.append('c-1234:' + hx('my "custom" error')); log.append('13()')
             continue
         d = rng.choice(noarg_ok)
-        text, entry, _ = G.valid_call(rng, echo, d, newline=False, absolute=not d.cmd.startswith('*'))
+        # the first unit of a message may be written without the leading colon: the path is the root there,
+        # whatever the previous message did (that is the isolation the property asks for)
+        absolute = (not d.cmd.startswith('*')) and not (k == 0 and rng.random() < 0.6)
+        text, entry, _ = G.valid_call(rng, echo, d, newline=False, absolute=absolute)
         texts.append(text); log.append(entry)
     sep = b';'
+    if texts and texts[0].startswith(b':') and rng.random() < 0.5:
+        texts[0] = texts[0][1:]
     msg = sep.join(texts) + rng.choice([b'\n', b'\r\n', b' \n'])
     return msg, log, errs
 
